@@ -496,6 +496,54 @@ def c_nonzero_new(eng, st, fr, f, args, site):
     return outs
 
 
+# ------------------------------------------------------------------ comparisons through references
+
+
+@contract(r"^(std|core)::cmp::impls::<impl (std|core)::cmp::PartialEq<&'?\w* ?(mut )?B> for &'?\w* ?(mut )?A>::(eq|ne)$")
+def c_ref_eq(eng, st, fr, f, args, site):
+    """`&a == &b`: the pointees' equality (integers directly; a local ADT through its (derived) PartialEq::eq)."""
+    if len(args) != 2 or not all(isinstance(a, Ref) for a in args):
+        return None
+    neg = f["path"].endswith("::ne") or (f.get("resolved") or "").endswith("::ne")
+    a, b = deref1(eng, st, args[0]), deref1(eng, st, args[1])
+    va, vb = force(eng, st, a) if not isinstance(a, Ref) else a, force(eng, st, b) if not isinstance(b, Ref) else b
+    if isinstance(va, Int) and isinstance(vb, Int):
+        c = ("cmp", "Ne" if neg else "Eq", va.lin, vb.lin)
+        return [(st, Bool(c))]
+    if isinstance(va, Bool) and isinstance(vb, Bool):
+        return None
+    ty = getattr(va, "ty", None)
+    if isinstance(va, (Enum, Struct)) and isinstance(ty, int):
+        t = eng.T.t(ty)
+        p = eng.impl_index.get(("std::cmp::PartialEq", t.get("s"), "eq")) or eng.impl_index.get(("core::cmp::PartialEq", t.get("s"), "eq"))
+        if p and p in eng.F.bodies:
+            ra = a if isinstance(a, Ref) else args[0]
+            rb = b if isinstance(b, Ref) else args[1]
+            # the pointee's eq takes (&A, &B): hand it references to the pointees
+            la, lb = "obj:eqa#%d" % eng._hv(), "obj:eqb#%d" % eng._hv()
+            st.locs[la], st.locs[lb] = va, vb
+            rs = eng.inline(st, fr, eng.F.body(p), {}, [Ref(la, (), False), Ref(lb, (), False)], site)
+            if rs is None:
+                return None
+            if neg:
+                return [(s1, Bool(eng.neg_cond(v.cond))) if isinstance(v, Bool) else (s1, v) for s1, v in rs]
+            return rs
+    return None
+
+
+def deref1(eng, st, r):
+    """One level of dereference (a `&&T` argument yields the inner `&T`, a `&T` the value)."""
+    x = eng.M.read_path(st, r.loc, r.path)
+    if isinstance(x, Top):
+        x = eng.M.force_at(st, r.loc, r.path, x)
+    if isinstance(x, Ref):
+        y = eng.M.read_path(st, x.loc, x.path)
+        if isinstance(y, Top):
+            y = eng.M.force_at(st, x.loc, x.path, y)
+        return y
+    return x
+
+
 # ------------------------------------------------------------------ mem / misc
 
 
